@@ -14,8 +14,11 @@ Generators
         free-own      every protocol-valid sequence of
                       {init, thr, add, rem, fin} up to a depth bound, the
                       threshold ranging over the current live values
-                      (DESIGN section 4; quick depth 4 / batches <= 2,
-                      thorough depth 5 / batches <= 3);
+                      (DESIGN section 4 asks for depth 4 / batches <= 2
+                      [quick] and depth 5 / batches <= 3 [thorough]; run:
+                      quick depth 5 / batches <= 2, which contains it,
+                      thorough depth 5 / batches <= 3 and depth 6 /
+                      batches <= 2);
         cycle-own     the exact shape nested_sampling_loop produces,
                       init (thr rem add)^k [fin], which is a much smaller
                       language and is therefore taken deeper;
@@ -54,12 +57,15 @@ RULE = (
     "(1) Exhaustive prefix-sharing DFS over operation sequences on "
     "OrderedSamples for the 4 strict x replace_all modes, likelihood alphabet "
     "{0,1,2}, batches = multisets (passed in descending order): free-own "
-    "(every protocol-valid sequence of init/thr/add/rem/fin up to depth 4 "
-    "with batches<=2 [quick] or depth 5 with batches<=3 [thorough], "
-    "threshold = a current live value), cycle-own (caller shape "
-    "init (thr rem add)^k [fin], deeper) and cycle-foreign (caller shape, "
-    "threshold from {0,1,2,3} not tied to the store = training store under "
-    "draw_iid_live). Every node of the tree is one evaluated sequence; the "
+    "(every protocol-valid sequence of init/thr/add/rem/fin up to depth 5 "
+    "with batches<=2 [quick] or depth 5 with batches<=3 and depth 6 with "
+    "batches<=2 [thorough], threshold = a current live value), cycle-own "
+    "(caller shape init (thr rem add)^k [fin], up to 11 operations with "
+    "batches<=2, thorough also 8 operations with batches<=3) and "
+    "cycle-foreign (caller shape, threshold from {0,1,2,3} not tied to the "
+    "store = training store under draw_iid_live; 8 operations, thorough "
+    "also 11). The bounds actually run are the keys of "
+    "coverage.enum_spaces (space/b<batch bound>/d<depth>). Every node of the tree is one evaluated sequence; the "
     "visited-node count is compared with an independent memoised count over "
     "abstract states; coverage.exhaustive is true only if free-own and "
     "cycle-own were visited completely (no subtree pruned); per-space "
@@ -654,6 +660,14 @@ def assign(units, nshards):
     return bins
 
 
+def _case_size(case):
+    case = case or {}
+    ops = case.get("ops") or []
+    return (len(ops),
+            sum(len(o[1]) for o in ops if o[0] in ("init", "add")),
+            case.get("space") == "machine", jdump(case))
+
+
 class _Acc:
     def __init__(self, ctx, out):
         self.ctx = ctx
@@ -662,16 +676,21 @@ class _Acc:
         self.nodes = collections.Counter()     # per space id
         self.pruned = collections.Counter()
         self.nontrivial = 0
-        self.seen_keys = set()
+        self.best = {}
 
     def violation(self, v, sid):
         self.pruned[sid] += 1
         if self.ctx.known(v.key):
             self.out.stats.excluded_known[v.key] += 1
             # still report once so that KNOWN-FINDING is printed
-        if v.key not in self.seen_keys:
-            self.seen_keys.add(v.key)
-            self.out.add(v)
+        size = _case_size(v.case)
+        if v.key not in self.best or size < self.best[v.key][0]:
+            self.best[v.key] = (size, v)
+
+    def flush(self):
+        """One violation per key: the smallest case seen by this shard."""
+        for k in sorted(self.best):
+            self.out.add(self.best[k][1])
 
     def node(self, h, labels, sid):
         self.nodes[sid] += 1
@@ -992,6 +1011,7 @@ def shard(seed, units, n_machines, tier="quick", do_part0=False):
     with np.errstate(all="ignore"):
         for u in units:
             run_unit(u, acc)
+        acc.flush()
         total = sum(acc.nodes.values())
         stats.evaluations += total
         stats.classes.update(acc.classes)
@@ -1028,11 +1048,7 @@ def run(ctx):
     # one violation per key: the shortest operation list
     best = {}
     for v in out.violations:
-        ops = (v.get("case") or {}).get("ops") or []
-        case = v.get("case") or {}
-        size = (len(ops),
-                sum(len(o[1]) for o in ops if o[0] in ("init", "add")),
-                case.get("space") == "machine", jdump(case))
+        size = _case_size(v.get("case"))
         if v["key"] not in best or size < best[v["key"]][0]:
             best[v["key"]] = (size, v)
     out.violations = [best[k][1] for k in sorted(best)]
